@@ -369,4 +369,74 @@ PROPS["C06"] = {
     "assumptions": ["per-line parse is a function of the line", "H-pem"],
 }
 
+def nt_c04(lhs, impl):
+    f = lhs.split(" ")
+    return (f[0], f[2][:24], impl.split(" ")[0])
+
+def nt_c09(lhs, impl):
+    f = lhs.split(" ")
+    # distinct (predecessor, successor) content pairs by first bytes
+    pairs = set()
+    items = f[2:]
+    prev = None
+    for i in range(1, len(items), 2):
+        cur = items[i][:8]
+        if prev is not None:
+            pairs.add((prev, cur))
+        prev = cur
+    return (len(pairs), hash(tuple(sorted(pairs))) % 100000, impl)
+
+PROPS["C04"] = {
+    "modules": ["WhatIs.Props.C04"],
+    "theorems": ["WhatIs.C04.key_usage_table_ordered", "WhatIs.C04.identities_order_independent",
+                 "WhatIs.C04.jwt_order_independent", "WhatIs.C04.jwt_no_map_range"],
+    "facts": {"keyusage.isMap": False, "jwt.rangesOverMap": False,
+              "scan.mapRanges": ["internal/file pgpKey: e.Identities [function sorts]"],
+              "scan.formatsNonUTC": ["internal/asn1struct Raw.Value: Format t", "internal/file getCertificateInfo: Format c.NotAfter",
+                                     "internal/file getCertificateInfo: Format c.NotBefore"],
+              "scan.envReads": ["internal/openpgp/packet Config.Now: time.Now"]},
+    "nontrivial": nt_c04,
+    "rule": "inputs whose displayed collections have >= 2 elements (certificates with several key usages/SANs from the fixtures, a "
+            "7-claim JWT, a PGP key with 4 user IDs, keystores with several dated entries, RPMs, PuTTY keys, a 3-key authorized_keys): "
+            "32 in-process repetitions each (Go randomises map iteration per loop) and fresh processes of the real binary under "
+            "TZ in {UTC, Asia/Tokyo, XXX-14, America/St_Johns, YYY+11:30, Pacific/Kiritimati} x LANG/LC_ALL x three working "
+            "directories. distinct non-trivial = distinct (op, content prefix, outcome)",
+    "design_ref": "DESIGN.md §5 C04",
+    "level_text": "Proof for the modelled sites + regenerated whole-module facts: key usages come from an ordered table (one entry per "
+                  "bit, distinct names), PGP identities are emitted in sorted order (order-independence of the sort proved), JWT "
+                  "attributes are independent of member order (C18); a type-aware scan of the whole module shows no other reachable range "
+                  "over a map, no Format on a local-zone time and no environment read. Process environment and map randomisation are "
+                  "runtime behaviour: explored by repetition and environment changes, not proved.",
+    "level_note": "Trusted: Lean kernel; factscan (go/packages + RTA reachability); the allow-listed Format sites print times whose zone "
+                  "comes from the content (ASN.1 UTCTime, certificate validity). Exploration covers TZ/LANG/cwd and 32 repetitions.",
+    "technique": "Lean 4 proof of order-independence at each multi-valued site + regenerated type-aware facts (no other map range / local-time format / env read) + repetition and environment exploration",
+    "trusted_base": ["factscan: go/types classification of range expressions and time.Time.Format receivers; RTA call graph"],
+    "assumptions": ["libraries (crypto/x509, jks-go, go-rpm, putty-go) are themselves deterministic"],
+}
+
+PROPS["C09"] = {
+    "modules": ["WhatIs.Props.C09"],
+    "theorems": ["WhatIs.C09.history_independent", "WhatIs.C09.append_preserves_obs", "WhatIs.C09.append_wf", "WhatIs.C09.append_result",
+                 "WhatIs.C09.matcher_obs_invariant", "WhatIs.C09.matcher_idempotent"],
+    "facts": {"scan.globalWrites": ["internal/ssh1/des initFeistelBox: assign des.feistelBox"]},
+    "nontrivial": nt_c09,
+    "gen_timeout": 3000,
+    "rule": "sequences of 50 (thorough 400) inputs mixing the labelled corpus, multi-valued samples, malformed mutants and junk, with the "
+            "explicit-parameter EC keys of all curves first (they trigger the only reachable write to package-level state); every "
+            "element's in-sequence result is compared with its result in a fresh process. distinct non-trivial = distinct sets of "
+            "(predecessor, successor) content pairs",
+    "design_ref": "DESIGN.md §5 C09",
+    "level_text": "Proof: history independence for any state machine whose outputs depend only on an observation every step preserves "
+                  "(induction over the history), instantiated with the one reachable write to package-level state (append into the spare "
+                  "capacity of the curve table, proved invisible and idempotent); the regenerated fact scan.globalWrites shows there is no "
+                  "other reachable assignment/append/inc-dec through a package-level variable of the module (the DES S-box init is guarded "
+                  "by sync.Once). Tied to the code by sequence runs against fresh processes.",
+    "level_note": "Trusted: Lean kernel; factscan's syntactic notion of a write through a package-level variable (aliasing through "
+                  "copied slice headers is NOT visible to it — the curve-table case was found by reading and is modelled explicitly); "
+                  "library packages are assumed free of observable global state.",
+    "technique": "Lean 4 proof (induction over histories; slice/capacity aliasing model) + regenerated global-write facts + sequence-vs-fresh-process correspondence",
+    "trusted_base": ["factscan global-write detection", "fresh-process runs as the history-free reference"],
+    "assumptions": ["third-party libraries keep no observable state between calls"],
+}
+
 NOT_CLAIMED = {}
